@@ -100,8 +100,10 @@ def case_families(ctx, res, p):
         ql = cu.build_impl("plain", X, X + 0.0, None, std, Y, mu, cov, Lnp, None, None, j, True, True)
         qc = cu.build_impl("plain", X, X + 0.0, z, std, Y, mu, cov, None, Lnp, None, j, True, True)
         cf, cl, cc = (np.asarray(q.covariance(Xq, diag=False), float) for q in (qf, ql, qc))
+        vf, vl, vc = (np.asarray(q.covariance(Xq), float) for q in (qf, ql, qc))
         ks = max(np.max(np.abs(cu.kernel_np(cov, Xq, Xq))), 1e-300)
-        dvc = max(np.max(np.abs(cf - cl)), np.max(np.abs(cf - cc))) / ks
+        dvc = max(np.max(np.abs(cf - cl)), np.max(np.abs(cf - cc)), np.max(np.abs(vf - vl)), np.max(np.abs(vf - vc)),
+                  np.max(np.abs(vf - np.diag(cf)))) / ks
         res.dev("posterior_cov_agree_over_tol", dvc / tol)
         if sharp and dvc > tol:
             res.oracle_fail("posterior covariance differs between the three families on identical inputs", p,
